@@ -91,6 +91,11 @@ where
     fn size_hint(&self) -> (usize, Option<usize>) {
         // the items already pulled from the source are still to be yielded
         let buffered = self.buffer.len();
+        if self.done {
+            // the source has failed or ended: it will not be polled again,
+            // whatever it still announces
+            return (buffered, Some(buffered));
+        }
         let (lower, upper) = self.source.size_hint_items();
         (
             lower.saturating_add(buffered),
